@@ -5,7 +5,7 @@
            property's quick check must print a VIOLATION for it, and the patch is undone again.
            (Never run while other checks are running: they all build from /repo.)"""
 import json, os, subprocess, sys, glob
-sys.path.insert(0, "/verif/lib")
+sys.path.insert(0, os.path.dirname(os.path.realpath(__file__)))
 from vlib import *      # noqa
 
 
